@@ -42,16 +42,24 @@ theorem pred_is_any (j : Json) : runPred src_is_any j = .ok (TyFn.isAny.apply j)
   cases j with
   | num n => cases n <;> rfl
   | _ => rfl
-/-- the Draft 6/7 `integer`: an `int` that is not a `bool`, or a `float` with an integral value -/
+/-- `is_integer` as the Draft 6/7 lambda calls it (one level of nesting less) -/
+theorem call_is_integer (j : Json) : PFn.run fns 2 src_is_integer j = .ok (TyFn.isInteger.apply j) := by
+  cases j with
+  | num n => cases n <;> rfl
+  | _ => rfl
+
+/-- the Draft 6/7 `integer`: an `int` that is not a `bool`, or a `float` with an integral value.
+    (Proved from `call_is_integer`, not by unfolding `is_integer`: a rewrite of that function that keeps
+    its meaning leaves this proof alone.) -/
 theorem pred_draft6_integer (j : Json) :
     runPred src_draft6_type_checker_integer j = .ok (TyFn.isIntegerOrIntFloat.apply j) := by
+  have hc := call_is_integer j
+  simp only [runPred, PFn.run, src_draft6_type_checker_integer, runStmts, PEx.eval, fns, hc]
   cases j with
   | num n =>
     cases n with
-    | int v => simp [runPred, PFn.run, src_draft6_type_checker_integer, runStmts, PEx.eval, fns, src_is_integer,
-        pyIsInstance, TyFn.apply, Num.isIntegral, Except.bind]
-    | flt s m e => simp [runPred, PFn.run, src_draft6_type_checker_integer, runStmts, PEx.eval, fns, src_is_integer,
-        pyIsInstance, TyFn.apply, pyFloatIsInteger, Except.bind]
-  | _ => rfl
+    | int v => simp [TyFn.apply, Num.isIntegral, Except.bind]
+    | flt s m e => simp [TyFn.apply, pyIsInstance, pyFloatIsInteger, Except.bind]
+  | _ => simp [TyFn.apply, pyIsInstance, Except.bind]
 
 end JS.Tie
